@@ -760,7 +760,7 @@ func (i *interpreter) fround(r *smt.Term) *smt.Term {
 			} else {
 				nonneg := c.Le(c.Int64(0), n)
 				negT = c.Not(nonneg)
-				n = c.Ite(nonneg, n, c.Neg(n))
+				n = c.Abs(n) // sign-canonical: |n| and |-n| are one term, so their division witnesses are shared
 			}
 		}
 		if dv, ok := d.ConstInt(); ok {
@@ -778,7 +778,7 @@ func (i *interpreter) fround(r *smt.Term) *smt.Term {
 			} else {
 				dnonneg := c.Le(c.Int64(0), d)
 				negT = c.Not(c.Eq(negT, c.Not(dnonneg))) // xor with "d is negative"
-				d = c.Ite(dnonneg, d, c.Neg(d))
+				d = c.Abs(d)
 			}
 		}
 		ra := c.Mul(c.ToReal(n), c.DivR(one, c.ToReal(d))) // |r|
